@@ -2,15 +2,17 @@
   Non-vacuity of Lemmas/QTerm.lean, and sharpness of its fuel bound.
 
   `perpGame`: a perpetual check.  Every position is in check and has exactly one legal move, to the next
-  position; the static score is 0 everywhere.  The UNPRUNED reference tree is an infinite path, so
-  `Spec.Q perpGame n p = none` for every `n` and `Spec.QFinite` fails — the old theorem `quiesce_some`
-  says nothing here.  But no move improves the mover's static score (`0 < -0` is false), so the constant
-  rank 0 is a `QRank`, and `quiesce_terminates` / `findBestMove_terminates` apply: two units of fuel.
+  position; the static score is 0 everywhere.  The PLAIN quiescence tree is an infinite path, so
+  `Spec.Qplain perpGame n p = none` for every `n` and `Spec.QplainFinite` fails.  But no move improves the
+  mover's static score (`0 < -0` is false), so the constant rank 0 is a `QRank`, and `quiesce_terminates` /
+  `findBestMove_terminates` apply: two units of fuel.  The reference value `Spec.Q` (which only descends
+  into children that can matter) is defined with exactly the same two units: `perp_Q`, `perp_Q_one`.
 
   The same game shows that `ρ p + 1` units are NOT enough (`quiesce_rank_succ_not_enough`): the root
   gets past its stand-pat test, and its child — which returns at its own stand-pat test — still costs one.
 -/
 import Flounder.Lemmas.QTerm
+import Flounder.Lemmas.QSpec
 
 namespace Flounder.Search
 open Flounder Gen
@@ -40,24 +42,54 @@ theorem perp_rank : QRank perpGame (fun _ => True) (fun _ => 0) where
 
 theorem perp_closed : MovesClosed perpGame (fun _ => True) := fun _ _ _ _ => trivial
 
-/-- the reference tree is infinite: no fuel gives a reference value, anywhere. -/
-theorem perp_Q_none : ∀ (n p : Nat), Spec.Q perpGame n p = none := by
+/-- the plain quiescence tree is infinite: no fuel gives a plain value, anywhere. -/
+theorem perp_Qplain_none : ∀ (n p : Nat), Spec.Qplain perpGame n p = none := by
   intro n
   induction n with
   | zero => intro p; rfl
   | succ n ih =>
     intro p
-    rw [Q_succ, perp_qList]
+    rw [Qplain_succ, perp_qList]
     have h : perpGame.play p perpMove = p + 1 := rfl
     simp [foldStep, h, ih (p + 1)]
 
-/-- so the hypothesis of the old theorem (`quiesce_some`) is false everywhere ... -/
-theorem perp_not_QFinite (p : Nat) : ¬ Spec.QFinite perpGame p := by
+theorem perp_not_QplainFinite (p : Nat) : ¬ Spec.QplainFinite perpGame p := by
   rintro ⟨n, hn⟩
-  rw [perp_Q_none n p] at hn
+  rw [perp_Qplain_none n p] at hn
   cases hn
 
-/-- ... while the new one applies: two units of fuel, every window, every state. -/
+/-- no move of the perpetual check can matter. -/
+theorem perp_qRel (p : Nat) (m : Move) : qRel perpGame p m = false := by
+  rw [qRel_eq, qMated_eq, perp_qList]
+  have h1 : perpGame.eval p = 0 := rfl
+  have h2 : perpGame.eval (perpGame.play p m) = 0 := rfl
+  rw [h1, h2]
+  simp
+
+/-- the reference value is defined everywhere, with two units of fuel: the level score. -/
+theorem perp_Q (n p : Nat) : Spec.Q perpGame (n + 2) p = some 0 := by
+  rw [Q_succ_succ, perp_qList]
+  have : [perpMove].filter (qRel perpGame p) = [] := by simp [perp_qRel]
+  rw [this]
+  rfl
+
+theorem perp_QFinite (p : Nat) : Spec.QFinite perpGame p := ⟨2, by rw [perp_Q 0 p]; rfl⟩
+
+/-- ... and not with one (like the engine, `perp_one_fuel`): the skipped child is still a node. -/
+theorem perp_Q_one (p : Nat) : Spec.Q perpGame 1 p = none := by
+  rw [Q_succ, perp_qList]
+  simp [relStep, perp_qRel]
+
+/-- why a skipped child costs a unit of fuel in `Spec.Q`: with skipped children for free (`Spec.Qfree`) one
+    unit gives a value here, while the engine's quiescence with one unit runs out of fuel (`perp_one_fuel`
+    below) — "`Q n p` defined ⇒ `quiesce` answers with fuel `n`" (`quiesce_some`) would fail for `Qfree`. -/
+theorem perp_Qfree_one (p : Nat) : Spec.Qfree perpGame 1 p = some 0 := by
+  rw [Spec.Qfree_succ, perp_qList]
+  have : [perpMove].filter (qRel perpGame p) = [] := by simp [perp_qRel]
+  rw [this]
+  rfl
+
+/-- the engine's quiescence answers: two units of fuel, every window, every state. -/
 example (p : Nat) (fuel : Nat) (hf : 2 ≤ fuel) (α β : Int) (s : SearchState) :
     ∃ r, (quiesce perpGame fuel p α β s).1 = some r :=
   quiesce_terminates perpGame perp_rank p trivial fuel hf α β s
